@@ -56,6 +56,13 @@ class Factory:
     def make_block(self, n):
         return managed_memoryblock(MemoryBlock(n))
 
+    def again(self, ident, kind):
+        """managed() of an object that is hosted ALREADY (same identity): what a hosted method does that wraps the same
+        member on every call"""
+        from mpservice.multiprocessing.server_process import get_server
+        obj = get_server().id_to_obj[ident][0]
+        return managed_dict(obj) if kind == 'dict' else managed_list(obj) if kind == 'list' else managed_memoryblock(obj)
+
     def ping(self):
         return 1
 
@@ -114,8 +121,10 @@ def client_main(manager, conn, name):
         try:
             rep = ('ok', None)
             if op == 'create':
-                _, h, kind, via = cmd
-                if via == 'create':
+                _, h, kind, via, *rest = cmd
+                if via == 'again':
+                    px = fac.again(rest[0], kind)
+                elif via == 'create':
                     px = manager.dict() if kind == 'dict' else manager.list() if kind == 'list' \
                         else manager.MemoryBlock(BLOCK_SIZE)
                 else:
@@ -323,7 +332,9 @@ class Driver:
 
     # one external action of the spec; `holder_of_c` is a handle through which process p reaches container c
     def create(self, p, o, via, i):
-        r = self.ok(self.w.cmd(p, 'create', i, self.kind(o), via), 'create')
+        r = self.ok(self.w.cmd(p, 'create', i, self.kind(o), via, *((self.ident[o],) if via == 'again' else ())), 'create')
+        if via == 'again' and r['ident'] != self.ident[o]:
+            raise StepFailed('create:again', f'the re-wrapped object got another identity {r["ident"]} != {self.ident[o]}', '')
         self.ident[o] = r['ident']
         if r['shm']:
             self.shmname[o] = r['shm']
@@ -393,7 +404,7 @@ class StepFailed(Exception):
 # ---------------------------------------------------------------------------------------------------------------
 # replay of TLC behaviours (spec -> code)
 
-EXTERNAL = {'Create', 'ManagedReturn', 'Pickle', 'RebuildInheriting', 'Delete', 'RemoveFrom', 'GetFrom', 'ProcessExit'}
+EXTERNAL = {'Create', 'ManagedReturn', 'ManagedAgain', 'Pickle', 'RebuildInheriting', 'Delete', 'RemoveFrom', 'GetFrom', 'ProcessExit'}
 
 
 def is_external(act):
@@ -507,8 +518,8 @@ def settle(drv, st, bound=SETTLE_TIMEOUT):
 def do_external(drv, a, pre):
     """execute one external action; `pre` = spec state before it (to find the handle that reaches a container)"""
     n = a['name']
-    if n in ('Create', 'ManagedReturn'):
-        drv.create(a['p'], a['o'], 'create' if n == 'Create' else 'managed', a['i'])
+    if n in ('Create', 'ManagedReturn', 'ManagedAgain'):
+        drv.create(a['p'], a['o'], {'Create': 'create', 'ManagedReturn': 'managed', 'ManagedAgain': 'again'}[n], a['i'])
     elif n == 'Pickle':
         if a['kind'] == 'msg':
             drv.pickle_msg(a['p'], a['x'], a['i'])
@@ -664,6 +675,9 @@ class Gen:
             if o not in self.created:
                 out.append(('Create', {'p': p, 'o': o, 'via': 'create'}))
                 out.append(('Create', {'p': p, 'o': o, 'via': 'managed'}))
+        for o in sorted(set(h.values())):
+            # p holds a proxy of o, so o stays hosted while p's command runs: wrap the same object once more
+            out.append(('Create', {'p': p, 'o': o, 'via': 'again'}))
         for x, o in h.items():
             out.append(('Delete', {'p': p, 'x': x}))
             out.append(('Delete', {'p': p, 'x': x}))
@@ -782,7 +796,7 @@ def issue(drv, gen, name, a, ev):
     """send the command for one generated action WITHOUT waiting for the reply; returns the process that will answer"""
     w = drv.w
     if name == 'Create':
-        cmd = (a['p'], 'create', ev['i'], drv.kind(a['o']), a['via'])
+        cmd = (a['p'], 'create', ev['i'], drv.kind(a['o']), a['via']) + ((drv.ident[a['o']],) if a['via'] == 'again' else ())
     elif name == 'Pickle' and a['kind'] == 'msg':
         cmd = (a['p'], 'pickle', a['x'])
     elif name == 'Pickle' and a['kind'] == 'args':
@@ -810,6 +824,8 @@ def absorb(drv, gen, name, a, ev, rep):
     """harness-side naming after the reply"""
     val = drv.ok(rep, name)
     if name == 'Create':
+        if a['via'] == 'again' and val['ident'] != drv.ident[a['o']]:
+            raise StepFailed('create:again', f'the re-wrapped object got another identity {val["ident"]}', '')
         drv.ident[a['o']] = val['ident']
         if val['shm']:
             drv.shmname[a['o']] = val['shm']
